@@ -36,30 +36,32 @@ def reserve (held : List Nat) : List ProcRef → Option BuildErr × List Nat
     else reserve (id :: held) ps
 
 /-- `buildSourceTasks` / `buildDestinationTasks` (v2), `buildSourceNodes` / `buildDestinationNodes` (v1):
-the loop over `pl.ConnectorIDs` taking the connectors of type `k` -/
-def reserveConns (k : ConnKind) (held : List Nat) : List ConnCfg → Option BuildErr × List Nat
+the loop over `pl.ConnectorIDs` taking the connectors of type `k`; `instance.Connector(…)` refuses a
+connector that is open in a live run (`openC`) before its processors are looked at -/
+def reserveConns (k : ConnKind) (openC held : List Nat) : List ConnCfg → Option BuildErr × List Nat
   | [] => (none, held)
   | c :: cs =>
     if c.kind = .missing then (some .connector, held)
-    else if c.kind ≠ k then reserveConns k held cs
+    else if c.kind ≠ k then reserveConns k openC held cs
+    else if openC.contains c.id then (some .connRunning, held)
     else
       match reserve held c.procs with
       | (some e, h) => (some e, h)
-      | (none, h) => reserveConns k h cs
+      | (none, h) => reserveConns k openC h cs
 
 def hasKind (k : ConnKind) (cs : List ConnCfg) : Bool := cs.any (·.kind = k)
 
 inductive Outcome | ok | err (e : BuildErr)
   deriving DecidableEq, Repr, Inhabited
 
-/-- one call of v2 `buildRunnablePipeline` with the reservations `held` in place -/
-def attemptV2 (held : List Nat) (cfg : PipeCfg) : Outcome × List Nat :=
-  match reserveConns .source held cfg.conns with
+/-- one call of v2 `buildRunnablePipeline` with the reservations `held` in place and the connectors `openC` open -/
+def attemptV2 (openC held : List Nat) (cfg : PipeCfg) : Outcome × List Nat :=
+  match reserveConns .source openC held cfg.conns with
   | (some e, h) => (.err e, h)
   | (none, h1) =>
     if !hasKind .source cfg.conns then (.err .nosrc, h1)
     else
-      match reserveConns .dest h1 cfg.conns with
+      match reserveConns .dest openC h1 cfg.conns with
       | (some e, h) => (.err e, h)
       | (none, h2) =>
         if !hasKind .dest cfg.conns then (.err .nodst, h2)
@@ -73,8 +75,8 @@ def attemptV2 (held : List Nat) (cfg : PipeCfg) : Outcome × List Nat :=
             | .error e => (.err e, h3)
 
 /-- one call of v1 `buildRunnablePipeline` (= `buildNodes`) -/
-def attemptV1 (held : List Nat) (cfg : PipeCfg) : Outcome × List Nat :=
-  match reserveConns .source held cfg.conns with
+def attemptV1 (openC held : List Nat) (cfg : PipeCfg) : Outcome × List Nat :=
+  match reserveConns .source openC held cfg.conns with
   | (some e, h) => (.err e, h)
   | (none, h1) =>
     if !hasKind .source cfg.conns then (.err .nosrc, h1)
@@ -82,14 +84,70 @@ def attemptV1 (held : List Nat) (cfg : PipeCfg) : Outcome × List Nat :=
       match reserve h1 cfg.procs with
       | (some e, h) => (.err e, h)
       | (none, h2) =>
-        match reserveConns .dest h2 cfg.conns with
+        match reserveConns .dest openC h2 cfg.conns with
         | (some e, h) => (.err e, h)
         | (none, h3) =>
           if !hasKind .dest cfg.conns then (.err .nodst, h3) else (.ok, h3)
 
-def attempt : Eng → List Nat → PipeCfg → Outcome × List Nat
+def attempt : Eng → List Nat → List Nat → PipeCfg → Outcome × List Nat
   | .v1 => attemptV1
   | .v2 => attemptV2
+
+/-! ## the open phase of arch-v2 `runPipeline` (as the code is)
+
+`rp.sink.Open(ctx)` opens the shared tasks in `Tasks()` order (pipeline processors, then every
+destination branch: its processors, then the destination) and on a failure closes the tasks it had
+OPENED (rollback) — not the failing task, not the later ones — and `runPipeline` returns. Then, per
+worker, `w.Open(ctx)` opens the source, then the source's processors (then the DLQ) with the same
+rollback; on a failure `runPipeline` closes the workers opened EARLIER (`opened[j].Close`: every task
+of theirs) and the sink (`rp.sink.Close`: every shared task) and returns. Closing a processor task
+releases its reservation. Nothing closes: the task whose `Open` failed, the tasks after it in the same
+worker / sink, and — the sink failing — any worker's tasks, — worker i failing — the tasks of the
+workers after i. A source whose instance is already open (`pl.ConnectorIDs` lists it twice) fails to
+open ("another instance of the connector is already running"). -/
+
+/-- a task to open: `(true, id)` a processor, `(false, id)` a connector -/
+abbrev OpenTask := Bool × Nat
+
+def taskFails (failP failC openedC : List Nat) : OpenTask → Bool
+  | (true, id) => failP.contains id
+  | (false, id) => failC.contains id || openedC.contains id
+
+/-- open the tasks in order until one fails: (processors opened, connectors open afterwards, failed?) -/
+def openSeq (failP failC : List Nat) : List Nat → List OpenTask → List Nat × List Nat × Bool
+  | oc, [] => ([], oc, false)
+  | oc, t :: ts =>
+    if taskFails failP failC oc t then ([], oc, true)
+    else
+      match openSeq failP failC (if t.1 then oc else t.2 :: oc) ts with
+      | (ps, oc', f) => ((if t.1 then [t.2] else []) ++ ps, oc', f)
+
+/-- the shared tasks in `Sink.Open` order -/
+def sinkTasks (cfg : PipeCfg) : List OpenTask :=
+  (cfg.procs.map fun p => (true, p.1)) ++
+  ((cfg.conns.filter (·.kind = .dest)).map fun c => (c.procs.map fun p => ((true, p.1) : OpenTask)) ++ [(false, c.id)]).flatten
+
+/-- a worker's own tasks in `Worker.Open` order -/
+def workerTasks (c : ConnCfg) : List OpenTask := (false, c.id) :: c.procs.map fun p => (true, p.1)
+
+def procsOf (ts : List OpenTask) : List Nat := (ts.filter (·.1)).map (·.2)
+
+/-- the loop over `rp.workers`: `closed` = processors of the workers opened so far (what the rollback
+closes together with the sink's) -/
+def workersOpen (failP failC sinkProcs : List Nat) : List Nat → List Nat → List ConnCfg → Option (List Nat)
+  | _, _, [] => none
+  | oc, closed, c :: cs =>
+    match openSeq failP failC oc (workerTasks c) with
+    | (ps, _, true) => some (ps ++ closed ++ sinkProcs)
+    | (ps, oc', false) => workersOpen failP failC sinkProcs oc' (closed ++ ps) cs
+
+/-- the open phase: `none` = everything opened; `some released` = it failed and the rollback released
+the reservations of these processors -/
+def openPhaseV2 (cfg : PipeCfg) (failP failC : List Nat) : Option (List Nat) :=
+  match openSeq failP failC [] (sinkTasks cfg) with
+  | (ps, _, true) => some ps
+  | (_, oc, false) =>
+    workersOpen failP failC (procsOf (sinkTasks cfg)) oc [] (cfg.conns.filter (·.kind = .source))
 
 /-- the reservations an attempt added on top of `held` (new ones are pushed in front) -/
 def added (held h : List Nat) : List Nat := h.take (h.length - held.length)
@@ -102,6 +160,13 @@ structure St where
   held : List Nat := []
   /-- reservations of the runs built successfully and not ended yet -/
   live : List (List Nat) := []
+  /-- processors / connector plugins whose `Open` fails from now on -/
+  failP : List Nat := []
+  failC : List Nat := []
+  /-- a run started by `Start` is live (the pipeline's status is Running) -/
+  started : Bool := false
+  /-- connector instances that are open (those of the started run) -/
+  openC : List Nat := []
   deriving Repr, Inhabited
 
 inductive Step
@@ -113,11 +178,24 @@ inductive Step
   /-- configuration edits: create the processor instance `id` / drop `id` from every `ProcessorIDs`
   list / drop connector `id` from `pl.ConnectorIDs` / create a connector without processors and add it -/
   | mk (id : Nat) | rmp (id : Nat) | rmc (id : Nat) | addc (k : ConnKind) (id : Nat)
+  /-- the real `Start`: status check, build, open phase. arch-v2: a failed open phase returns the error
+  after its rollback; a started run stays live until `teardown`. v1: every node is run, opens its own
+  connector / processor inside `Run` and tears it down on every exit (`ProcessorNode.Run` defers the
+  teardown before `Open`); the harness force-stops the run at once and waits for it, so the step covers
+  the whole run -/
+  | start
+  /-- `Open` of processor `id` / of the plugin of connector `id` fails from now on; nothing fails -/
+  | failp (id : Nat) | failc (id : Nat) | failclear
+  deriving DecidableEq, Repr, Inhabited
+
+inductive StartOutcome
+  | ok | ran | buildErr (e : BuildErr) | openFailed | plRunning
   deriving DecidableEq, Repr, Inhabited
 
 inductive Obs
   | built (o : Outcome) (held : List Nat)
   | torn (held : List Nat)
+  | started (o : StartOutcome) (held : List Nat)
   | none
   deriving DecidableEq, Repr, Inhabited
 
@@ -136,12 +214,36 @@ def release (held : List Nat) (live : List (List Nat)) : List Nat := held.filter
 
 def step (eng : Eng) (s : St) : Step → St × Obs
   | .build =>
-    let (o, h) := attempt eng s.held s.cfg
+    let (o, h) := attempt eng s.openC s.held s.cfg
     let live := if o = .ok then s.live ++ [added s.held h] else s.live
     ({ s with held := h, live := live }, .built o h)
   | .teardown =>
     let h := release s.held s.live
-    ({ s with held := h, live := [] }, .torn h)
+    ({ s with held := h, live := [], started := false, openC := [] }, .torn h)
+  | .start =>
+    match eng with
+    | .v2 =>
+      if s.started then (s, .started .plRunning s.held)
+      else
+        let (o, h) := attempt .v2 s.openC s.held s.cfg
+        match o with
+        | .err e => ({ s with held := h }, .started (.buildErr e) h)
+        | .ok =>
+          match openPhaseV2 s.cfg s.failP s.failC with
+          | none =>
+            ({ s with held := h, live := s.live ++ [added s.held h], started := true,
+                      openC := (s.cfg.conns.filter (·.kind ≠ .missing)).map (·.id) }, .started .ok h)
+          | some released =>
+            let h' := h.filter fun x => !released.contains x
+            ({ s with held := h' }, .started .openFailed h')
+    | .v1 =>
+      let (o, h) := attempt .v1 s.openC s.held s.cfg
+      match o with
+      | .err e => ({ s with held := h }, .started (.buildErr e) h)
+      | .ok => (s, .started .ran s.held)
+  | .failp id => ({ s with failP := id :: s.failP }, .none)
+  | .failc id => ({ s with failC := id :: s.failC }, .none)
+  | .failclear => ({ s with failP := [], failC := [] }, .none)
   | e => ({ s with cfg := editCfg s.cfg e }, .none)
 
 def run (eng : Eng) : St → List Step → List (St × Step × St × Obs)
